@@ -470,6 +470,9 @@ def run_impl(module: str, suite: str, cases: list, per_case_timeout: float = 20.
         for k, r in enumerate(got):
             results[start + k] = r
         start += len(got)
+        if start < len(cases) and "WORKER-FAULT-BUDGET" in (out or ""):
+            faults = max(faults, MAX_FAULTS)          # the worker itself saw that many memory blow-ups: stop the suite
+            continue
         if start < len(cases):
             # the worker died on case `start`
             last = (out or "").strip().splitlines()[-3:]
